@@ -76,6 +76,15 @@ def c10(args, rng):
         vs.append((float(mp.e ** (-mp.mpf(x))), 'sweep'))
     for e in range(-1000, 1001, 7 if args.tier == 'quick' else 1):
         vs.append((2.0 ** e, 'pow2'))
+    # the very ends of the positive doubles: subnormals, the smallest normals, the largest doubles
+    for _ in range(300 if args.tier == 'quick' else 20000):
+        k = rng.random()
+        if k < 0.4:
+            vs.append((struct.unpack('>d', struct.pack('>q', rng.randint(1, (1 << 52) - 1)))[0], 'subnormal'))
+        elif k < 0.7:
+            vs.append((2.0 ** -rng.randint(1000, 1022) * (1 + rng.random()), 'tiny'))
+        else:
+            vs.append((2.0 ** rng.randint(1000, 1023) * (1 + 0.99 * rng.random()), 'huge'))
     # log-uniform in |x| = |ln v| from 1e-9 to 40, both signs: every decade of the series branch gets the same weight
     for _ in range(n_sweep):
         x = 10.0 ** rng.uniform(-9, 1.6) * rng.choice([-1.0, 1.0])
